@@ -1333,6 +1333,623 @@ def float_floor_div(a, b):
 
 def large_int(a):
     return a * a * a * a
+
+class Node:
+    def __init__(self, v, nxt=None):
+        self.v = v
+        self.nxt = nxt
+
+
+class Acc:
+    def __init__(self):
+        self.items = []
+        self.total = 0
+
+    def add(self, x):
+        self.items.append(x)
+        self.total += x
+        return self
+
+
+def merge_if(a, b):
+    if a > b:
+        x = a - b
+    else:
+        x = b - a
+    return x * 2
+
+
+def merge_nested(a, b, c):
+    r = 0
+    if a:
+        if b:
+            r = 1
+        else:
+            r = 2
+    elif c:
+        r = 3
+    return r + (10 if a and c else 0)
+
+
+def merge_field(a, n):
+    node = Node(n)
+    if a:
+        node.v = node.v + 1
+    else:
+        node.nxt = Node(5)
+    return (node.v, node.nxt is None)
+
+
+def alias_mutation(a, n):
+    x = Node(n)
+    y = x
+    if a:
+        y.v = 100
+    return x.v
+
+
+def alias_in_list(n):
+    x = Node(n)
+    xs = [x, x]
+    xs[0].v += 1
+    return xs[1].v
+
+
+def mutate_argument(n):
+    def bump(node):
+        node.v += 1
+    x = Node(n)
+    bump(x)
+    bump(x)
+    return x.v
+
+
+def rebind_argument(n):
+    def rebind(node):
+        node = Node(0)
+        return node
+    x = Node(n)
+    rebind(x)
+    return x.v
+
+
+def none_default_list(n):
+    def push(x, acc=None):
+        if acc is None:
+            acc = []
+        acc.append(x)
+        return acc
+    a = push(n)
+    b = push(n)
+    return (len(a), len(b), a is b)
+
+
+def method_chain(n):
+    return Acc().add(n).add(2).total
+
+
+def two_instances(n):
+    a, b = Acc(), Acc()
+    a.add(n)
+    return (len(a.items), len(b.items))
+
+
+def loop_sym_cond(a, b):
+    c = 0
+    for x in [1, 2, 3]:
+        if x > a:
+            c += x
+        elif x == b:
+            c -= 1
+    return c
+
+
+def loop_early_return_sym(a):
+    for x in [3, 5, 7]:
+        if x > a:
+            return x
+    return -1
+
+
+def try_sym_raise(a):
+    try:
+        if a > 3:
+            raise ValueError("big")
+        r = "small"
+    except ValueError as e:
+        r = str(e)
+    return r
+
+
+def try_finally_sym(a):
+    log = []
+    try:
+        if a:
+            raise KeyError("k")
+        log.append("body")
+    except KeyError:
+        log.append("except")
+    finally:
+        log.append("finally")
+    return len(log)
+
+
+def nested_try_sym(a, b):
+    try:
+        try:
+            if a:
+                raise ValueError("v")
+            if b:
+                raise KeyError("k")
+            return "none"
+        except ValueError:
+            if b:
+                raise TypeError("t")
+            return "value"
+    except (KeyError, TypeError) as e:
+        return type(e).__name__
+
+
+def opt_param(s):
+    if s is None:
+        return "none"
+    if not s:
+        return "empty"
+    return s + "!"
+
+
+def opt_or(s):
+    return (s or "dflt") + "."
+
+
+def opt_int_truthy(n):
+    if n:
+        return n + 1
+    return -1
+
+
+def opt_compare(n):
+    return n == 0
+
+
+def opt_in_fstring(s):
+    return f"<{s}>"
+
+
+def str_concat_sym(a, b):
+    return a + "-" + b
+
+
+def str_prefix_sym(a):
+    return a.startswith("ab") and not a.endswith("z")
+
+
+def str_len_sym(a):
+    return len(a) > 2
+
+
+def str_eq_sym(a, b):
+    return "same" if a == b else "diff"
+
+
+def str_in_sym(a):
+    return a in ("x", "y")
+
+
+def int_arith_sym(a, b):
+    return (a + b) * 2 - a // 2
+
+
+def int_mod_sym(a):
+    return a % 3
+
+
+def int_neg_floor_sym(a):
+    return a // 2
+
+
+def float_arith_sym(a, b):
+    return a * b + 0.5
+
+
+def float_int_trunc_sym(a):
+    return int(a)
+
+
+def float_cmp_sym(a, b):
+    return a <= b
+
+
+def bool_ops_sym(a, b):
+    return (a and not b) or (b and not a)
+
+
+def bool_to_int_sym(a, b):
+    return a + b
+
+
+def min_max_sym(a, b):
+    return max(a, b) - min(a, b)
+
+
+def ternary_chain_sym(a):
+    return "neg" if a < 0 else "zero" if a == 0 else "pos"
+
+
+def while_with_counter(n):
+    i = 0
+    total = 0
+    while i < 3:
+        total += n
+        i += 1
+    return total
+
+
+def dict_sym_value(n):
+    d = {"a": n}
+    d["b"] = d["a"] + 1
+    return d["b"]
+
+
+def dict_branch_key(a, n):
+    d = {}
+    if a:
+        d["x"] = n
+    return d.get("x", -1)
+
+
+def list_branch_append(a, n):
+    xs = [1]
+    if a:
+        xs.append(n)
+    return len(xs)
+
+
+def tuple_return_unpack(a, b):
+    def pair():
+        return (a + 1, b + 1)
+    x, y = pair()
+    return x * y
+
+
+def short_circuit_side_effect(a):
+    acc = Acc()
+    a and acc.add(1)
+    return acc.total
+
+
+def comparison_chain_sym(a, b, c):
+    return a < b < c
+
+
+def equality_bool_int_sym(a):
+    return a == 1
+
+
+def nested_function_state(n):
+    acc = Acc()
+    def go(k):
+        acc.add(k)
+        if k > 0:
+            go(k - 1)
+    go(2)
+    return acc.total + n
+
+
+def exception_carries_field(n):
+    try:
+        raise Signal("m", code=n)
+    except Signal as e:
+        return e.code + 1
+
+
+def isinstance_branch(a, n):
+    x = Node(n) if a else Acc()
+    return isinstance(x, Node)
+
+
+def enum_from_sym(s):
+    try:
+        return Status(s).name
+    except ValueError:
+        return "invalid"
+
+
+def enum_branch_sym(s):
+    st_ = Status(s) if s in ("STARTED", "DONE") else None
+    if st_ is Status.DONE:
+        return 1
+    if st_ is None:
+        return 2
+    return 3
+
+import functools
+
+
+def get_present_none(x):
+    d = {"a": None}
+    return d.get("a", x)
+
+
+def get_present_falsy_or(x):
+    d = {"a": 0}
+    return d.get("a") or x
+
+
+def get_missing_default_none(x):
+    d = {"a": x}
+    return d.get("b") is None
+
+
+def get_chain_none_value(x):
+    d = {"a": None}
+    try:
+        return d.get("a", {}).get("b")
+    except AttributeError:
+        return "attr-error"
+
+
+def get_truthy_test(x):
+    d = {"a": x}
+    if d.get("a"):
+        return "yes"
+    return "no"
+
+
+def get_error_idiom(x):
+    data = {"error": {"msg": x}}
+    return data.get("error") and data["error"].get("msg")
+
+
+def dict_in_and_index(k):
+    d = {"a": 1}
+    return d[k] if k in d else -1
+
+
+def dict_keys_set(x):
+    d = {"a": 1, "b": x}
+    return set(d) == {"a", "b"}
+
+
+def dict_from_pairs(x):
+    d = dict([("a", x), ("b", 2)])
+    return d["a"] + d["b"]
+
+
+def dict_kwargs_ctor(x):
+    d = dict(a=x, b=2)
+    return d["a"] + d["b"]
+
+
+def dict_update_kwargs(x):
+    d = {"a": 1}
+    d.update(b=x)
+    return len(d)
+
+
+def dict_pop_missing(x):
+    d = {"a": 1}
+    return d.pop("zz")
+
+
+def dict_iter_keys(x):
+    d = {"a": 1, "b": 2}
+    return "".join(k for k in d)
+
+
+def dict_bool(x):
+    return (bool({}), bool({"a": x}))
+
+
+def dict_nested_update_alias(x):
+    inner = {"v": 1}
+    d = {"in": inner}
+    e = dict(d)
+    e["in"]["v"] = x
+    return inner["v"]
+
+
+def set_add_dup(x):
+    s = set()
+    s.add(x)
+    s.add(x)
+    return len(s)
+
+
+def set_discard_missing(x):
+    s = {1}
+    s.discard(x)
+    return len(s)
+
+
+def set_remove_missing(x):
+    s = {1}
+    s.remove(x)
+    return len(s)
+
+
+def set_issubset(x):
+    return {1, x}.issubset({1, 2, 3})
+
+
+def set_in(x):
+    return x in {1, 2}
+
+
+def set_from_list(x):
+    return len(set([1, x, 1]))
+
+
+def set_update(x):
+    s = {1}
+    s.update([x, 2])
+    return len(s)
+
+
+def str_encode_decode(s):
+    return s.encode("utf-8").decode("utf-8")
+
+
+def bytes_decode(s):
+    return s.encode().decode() == s
+
+
+def int_of_str_num(x):
+    return int("42") + x
+
+
+def int_of_float_str(x):
+    return int("4.2")
+
+
+def float_of_int(x):
+    return float(x) / 2
+
+
+def partial_call(x):
+    def add(a, b, c=0):
+        return a + b + c
+    p = functools.partial(add, 1, c=x)
+    return p(2)
+
+
+def min_of_list(x):
+    return min([3, x, 5])
+
+
+def min_two_float(a, b):
+    return min(a, b)
+
+
+def ceil_div(a, b):
+    return math.ceil(a / b)
+
+
+def sum_gen(x):
+    return sum(v for v in [1, 2, x] if v > 1)
+
+
+def any_gen(x):
+    return any(v > x for v in [1, 2, 3])
+
+
+def all_gen(x):
+    return all(v > x for v in [1, 2, 3])
+
+
+def next_iter(x):
+    return next(iter([x, 2]))
+
+
+def next_default(x):
+    return next(iter([]), x)
+
+
+def next_stop(x):
+    return next(iter([]))
+
+
+def len_str_bytes(s):
+    return (len(s), len(s.encode("utf-8")))
+
+
+def repr_str(s):
+    return repr(s)
+
+
+def tuple_of_gen(x):
+    return tuple(v + x for v in (1, 2))
+
+
+def sorted_plain(x):
+    return tuple(sorted([3, x, 2]))
+
+
+def list_remove(x):
+    xs = [1, 2, 3]
+    xs.remove(x)
+    return len(xs)
+
+
+def list_index(x):
+    return [5, 6, 7].index(x)
+
+
+def list_insert(x):
+    xs = [1, 3]
+    xs.insert(1, x)
+    return tuple(xs)
+
+
+def list_pop_index(x):
+    xs = [1, 2, 3]
+    v = xs.pop(0)
+    return (v, len(xs), x)
+
+
+def list_clear(x):
+    xs = [1, x]
+    ys = xs
+    xs.clear()
+    return len(ys)
+
+
+def list_reverse_slice(x):
+    return tuple([1, 2, x][::-1])
+
+
+def list_count(x):
+    return [1, x, 1].count(1)
+
+
+def str_format_method(x):
+    return "{}-{}".format(x, 2)
+
+
+def str_lower_eq(s):
+    return s.lower() == "abc"
+
+
+def str_endswith(s):
+    return s.endswith("ion")
+
+
+def str_split_default(s):
+    return len(s.split())
+
+
+def str_partition(s):
+    return s.partition(":")[0]
+
+
+def str_zfill(x):
+    return str(x).zfill(3)
+
+
+def str_ljust(s):
+    return s.ljust(4, ".")
+
+
+def getattr_on_none(x):
+    return getattr(None, "value", x)
+
+
+def hasattr_prop(x):
+    return hasattr(WithProp(x), "double")
+
+
+def callable_check(x):
+    return (callable(len), callable(x), callable(lambda: 1))
+
+
+def id_same(x):
+    a = [x]
+    b = a
+    return id(a) == id(b)
+
+
+def hash_eq(x):
+    return hash(x) == hash(x)
 '''
 
 CASES = [
@@ -1554,6 +2171,114 @@ CASES = [
     ('int_bitops', [(6, 3)]),
     ('float_floor_div', [(7.5, 2), (-7.5, 2)]),
     ('large_int', [(10000000000,)]),
+    ('merge_if', [(3, 1), (1, 3), (2, 2)]),
+    ('merge_nested', [(True, True, False), (True, False, True), (False, False, True), (False, True, False)]),
+    ('merge_field', [(True, 1), (False, 1)]),
+    ('alias_mutation', [(True, 1), (False, 1)]),
+    ('alias_in_list', [(1,)]),
+    ('mutate_argument', [(1,)]),
+    ('rebind_argument', [(1,)]),
+    ('none_default_list', [(1,)]),
+    ('method_chain', [(3,)]),
+    ('two_instances', [(3,)]),
+    ('loop_sym_cond', [(0, 2), (2, 2), (5, 1)]),
+    ('loop_early_return_sym', [(4,), (9,), (0,)]),
+    ('try_sym_raise', [(5,), (1,)]),
+    ('try_finally_sym', [(True,), (False,)]),
+    ('nested_try_sym', [(True, True), (True, False), (False, True), (False, False)]),
+    ('opt_param', [(None,), ('',), ('a',)]),
+    ('opt_or', [(None,), ('',), ('a',)]),
+    ('opt_int_truthy', [(None,), (0,), (4,)]),
+    ('opt_compare', [(None,), (0,), (4,)]),
+    ('opt_in_fstring', [(None,), ('a',)]),
+    ('str_concat_sym', [('a', 'b'), ('', '')]),
+    ('str_prefix_sym', [('abc',), ('abz',), ('x',)]),
+    ('str_len_sym', [('abc',), ('a',)]),
+    ('str_eq_sym', [('a', 'a'), ('a', 'b')]),
+    ('str_in_sym', [('x',), ('q',)]),
+    ('int_arith_sym', [(3, 4), (-3, 4)]),
+    ('int_mod_sym', [(7,), (-7,)]),
+    ('int_neg_floor_sym', [(-7,), (7,)]),
+    ('float_arith_sym', [(1.5, 2.0), (0.25, 4.0)]),
+    ('float_int_trunc_sym', [(-1.5,), (2.75,)]),
+    ('float_cmp_sym', [(1.5, 1.5), (2.5, 1.0)]),
+    ('bool_ops_sym', [(True, False), (True, True), (False, False)]),
+    ('bool_to_int_sym', [(True, True), (False, True)]),
+    ('min_max_sym', [(1, 5), (5, 1)]),
+    ('ternary_chain_sym', [(-1,), (0,), (1,)]),
+    ('while_with_counter', [(2,)]),
+    ('dict_sym_value', [(4,)]),
+    ('dict_branch_key', [(True, 3), (False, 3)]),
+    ('list_branch_append', [(True, 3), (False, 3)]),
+    ('tuple_return_unpack', [(1, 2)]),
+    ('short_circuit_side_effect', [(True,), (False,)]),
+    ('comparison_chain_sym', [(1, 2, 3), (1, 3, 2), (3, 2, 1)]),
+    ('equality_bool_int_sym', [(True,), (False,)]),
+    ('nested_function_state', [(1,)]),
+    ('exception_carries_field', [(4,)]),
+    ('isinstance_branch', [(True, 1), (False, 1)]),
+    ('enum_from_sym', [('DONE',), ('zzz',)]),
+    ('enum_branch_sym', [('DONE',), ('STARTED',), ('q',)]),
+    ('get_present_none', [(5,)]),
+    ('get_present_falsy_or', [(5,)]),
+    ('get_missing_default_none', [(1,)]),
+    ('get_chain_none_value', [(1,)]),
+    ('get_truthy_test', [(0,), (1,), ('',), (None,)]),
+    ('get_error_idiom', [('m',), ('',)]),
+    ('dict_in_and_index', [('a',), ('b',)]),
+    ('dict_keys_set', [(1,)]),
+    ('dict_from_pairs', [(1,)]),
+    ('dict_kwargs_ctor', [(1,)]),
+    ('dict_update_kwargs', [(1,)]),
+    ('dict_pop_missing', [(1,)]),
+    ('dict_iter_keys', [(1,)]),
+    ('dict_bool', [(1,)]),
+    ('dict_nested_update_alias', [(9,)]),
+    ('set_add_dup', [(1,)]),
+    ('set_discard_missing', [(1,), (2,)]),
+    ('set_remove_missing', [(1,), (2,)]),
+    ('set_issubset', [(2,), (9,)]),
+    ('set_in', [(1,), (5,)]),
+    ('set_from_list', [(1,), (2,)]),
+    ('set_update', [(1,), (3,)]),
+    ('str_encode_decode', [('aé',)]),
+    ('bytes_decode', [('a',)]),
+    ('int_of_str_num', [(1,)]),
+    ('int_of_float_str', [(1,)]),
+    ('float_of_int', [(3,)]),
+    ('partial_call', [(3,)]),
+    ('min_of_list', [(1,), (9,)]),
+    ('min_two_float', [(1.5, 2.5), (3.0, 2.0)]),
+    ('ceil_div', [(7, 2), (6, 3)]),
+    ('sum_gen', [(5,), (0,)]),
+    ('any_gen', [(2,), (3,)]),
+    ('all_gen', [(0,), (1,)]),
+    ('next_iter', [(7,)]),
+    ('next_default', [(7,)]),
+    ('next_stop', [(7,)]),
+    ('len_str_bytes', [('aé',)]),
+    ('repr_str', [('a',), ("it's",)]),
+    ('tuple_of_gen', [(1,)]),
+    ('sorted_plain', [(1,), (9,)]),
+    ('list_remove', [(2,), (9,)]),
+    ('list_index', [(6,), (9,)]),
+    ('list_insert', [(2,)]),
+    ('list_pop_index', [(1,)]),
+    ('list_clear', [(1,)]),
+    ('list_reverse_slice', [(3,)]),
+    ('list_count', [(1,), (2,)]),
+    ('str_format_method', [(1,)]),
+    ('str_lower_eq', [('ABC',), ('x',)]),
+    ('str_endswith', [('action',), ('x',)]),
+    ('str_split_default', [('a b  c',)]),
+    ('str_partition', [('a:b',)]),
+    ('str_zfill', [(7,)]),
+    ('str_ljust', [('ab',)]),
+    ('getattr_on_none', [(3,)]),
+    ('hasattr_prop', [(1,)]),
+    ('callable_check', [(1,)]),
+    ('id_same', [(1,)]),
+    ('hash_eq', [(1,), ('a',)]),
 ]
 
 
